@@ -60,7 +60,11 @@ def line_cmd(rng, n):
     if r < 17: return [region(rng, n) + "k" + rng.choice("abx")]
     if r < 18: return [region(rng, n)]
     if r < 19: return ["rs " + rng.choice("abx")] + text_block(rng)
-    if r < 20: return [region(rng, n) + "r " + rng.choice(["fa", "fb", "nofile"])]
+    if r < 20:
+        if rng.below(3) == 0:   # filters and command reads through the closed shell of the harness
+            sh = rng.choice(["cat", "tr a-z A-Z", "sed 1q", "true", "printf x", "nosuchcmd"])
+            return [region(rng, n) + rng.choice(["!", "!", "r !"]) + sh]
+        return [region(rng, n) + "r " + rng.choice(["fa", "fb", "nofile"])]
     if r < 22: return ["u"]
     if r < 23: return ["redo"]
     if r < 24: return [region(rng, n) + "@" + rng.choice("abx")]
@@ -70,8 +74,19 @@ def line_cmd(rng, n):
     if r < 29: return [region(rng, n) + "d|" + region(rng, n) + "pu"]
     return ["se " + rng.choice(["ic", "noic"])]
 
-def c06_cases(rng, count, maxcmds=8):
+def c06_pipe_cases(rng, count):
+    """filters over ranges larger than a pipe buffer (64 KiB): the whole range must reach the command"""
     out = []
+    for _ in range(count):
+        n = rng.choice([2500, 3000, 6000])
+        content = "".join("line %d of a large buffer for the pipe\n" % i for i in range(n))
+        rg = rng.choice(["%", "2,$-1", "1,$", "100,$"])
+        sh = rng.choice(["cat", "tr a-z A-Z", "cat", "tr a-z A-Z", "sed 1q"]) if len(out) >= 2 else ["cat", "tr a-z A-Z"][len(out)]
+        out.append(case([("fa", content)], ["fa"], [rg + "!" + sh, "=", "$p", "1p", "u", "=", "q!"]))
+    return out
+
+def c06_cases(rng, count, maxcmds=8):
+    out = c06_pipe_cases(rng, max(2, count // 300))
     for _ in range(count):
         files = [("fa", rand_content(rng)), ("fb", rand_content(rng, 3))]
         n = files[0][1].count("\n") + 1
@@ -104,7 +119,7 @@ def file_cmd(rng, names):
     if r < 34: return ["q"]
     if r < 35: return ["x"]
     if r < 36: return [rng.choice(["wq", "xa", "q"])]
-    if r < 37: return ["@@touch " + f]
+    if r < 37: return ["@@touch " + f] if rng.below(4) else ["@@epoch " + f]
     if r < 38: return ["@@writefile " + f + " " + hx(rng.choice(WORDS) + "\n")]
     if r < 39: return ["se " + rng.choice(["wa", "nowa", "aw", "noaw"])] if rng.below(3) == 0 else [rng.choice(["1d|e! " + f, "e! " + f + "|1d", "$d|b #", "e #|$d", "1d|e " + f])]
     if r < 40: return [rng.choice(["b!", "b !", "b !", "b ~"])]
@@ -137,8 +152,21 @@ def full_table_cases(rng, count):
         out.append(case(files + [("fresh", "fresh\n")], [names[0]], lines))
     return out
 
+def epoch_cases(rng, count):
+    """files whose time stamp is 0 (the epoch): they exist, so a write without ! from another buffer must not
+    replace them, although 0 is also what ec_write passes for 'not the file being edited'"""
+    out = []
+    for _ in range(count):
+        files = [("f0", rand_content(rng, 4) or "x\n"), ("f1", "keep me\nsecond\n"), ("f2", None)]
+        lines = ["@@epoch f1"]
+        for _ in range(1 + rng.below(4)):
+            lines.append(rng.choice(["w f1", "1w f1", "1,2w f1", "w f2", "w! f1", "e! f1", "w", "1d", "e! f0", "@@epoch f0", "w f1", "x", "wq"]))
+        lines += ["q!"]
+        out.append(case(files, ["f0"], lines))
+    return out
+
 def buf_cases(rng, count, nfiles=3, maxcmds=14):
-    out = full_table_cases(rng, max(3, count // 150))
+    out = full_table_cases(rng, max(3, count // 150)) + epoch_cases(rng, max(4, count // 100))
     for _ in range(count):
         k = 2 + rng.below(nfiles - 1) if nfiles > 2 else 2
         names = ["f%d" % i for i in range(k)]
@@ -259,6 +287,11 @@ def c01_cases(rng, count):
             elif k == 9: lines.append("u")
             elif k == 10: lines.append("1,2w")
             else: lines.append("w! f2")
+        # several buffers of different sizes written at once (:xa) or by autowrite on leaving them
+        if rng.below(4) == 0:
+            lines = [rng.choice(["1d", "a\nnew\n.", "%d", "1,2d"]).replace("\n", "\n"), "e! f2", rng.choice(["1d", "$d", "a\nx\n."]).replace("\n", "\n"),
+                     rng.choice(["xa", "xa!", "se aw\ne f0", "se aw\nb 1", "se aw\nq"]).replace("\n", "\n")]
+            lines = [x for l in lines for x in l.split("\n")]
         lines += [rng.choice(["w", "wq", "x", "w! f2"]), "q!"]
         out.append(case(files, ["f0"], lines))
     return out
